@@ -361,7 +361,7 @@ fn judge_table(printed: &Printed, img: &Image, stack: bool) -> Option<(String, S
 fn special_queries() -> Vec<(&'static str, String, String, Option<u16>)> {
     // (family, source, location token, address the assembler gave it; None = must be refused without panic)
     let mut v = Vec::new();
-    let names = ["b1", "o7", "B0", "x", "o", "b", "b2", "xg", "r8", "_1", "2nd", "9"];
+    let names = ["b1", "o7", "B0", "x", "o", "b", "b2", "xg", "r8", "_1", "2nd", "9", "r7save", "r0_", "R3x", "pcx"];
     let mut src = String::from(".orig x2fff\nnot r1, r1\n");
     for (i, n) in names.iter().enumerate() {
         src.push_str(&format!("{n} add r0, r0, #{}\n", i));
@@ -406,6 +406,12 @@ fn judge_special(src: &str, tok: &str, want: Option<u16>) -> Option<(String, Str
                 let how = if seg.contains("OutOfBounds") || seg.contains("CommandError") || seg.contains("NotFound") { "refused" } else { "resolved elsewhere" };
                 return Some((format!("goto/{tok}"), format!("`goto {tok}` must set PC to x{addr:04x} (the address the assembler gave the label); it was {how}, PC = x{:04x}", obs.machine.pc)));
             }
+            // `print <label>` shows the word the assembler put there
+            let seg = obs.dbg.split("[Q1]\n").nth(1).and_then(|r| r.split("[Q2]").next()).unwrap_or("");
+            let word = format!("x{:04x}", obs.machine.mem[addr as usize]);
+            if !seg.lines().any(|l| l.trim().eq_ignore_ascii_case(&word)) {
+                return Some((format!("print/{tok}"), format!("`print {tok}` must show {word} (the word at x{addr:04x}); it printed {seg:?}")));
+            }
             let user_breaks: Vec<u16> = obs.breakpoints.clone().unwrap_or_default().iter().filter(|(_, pre)| !pre).map(|(a, _)| *a).collect();
             if user_breaks != vec![addr] {
                 return Some((format!("break-add/{tok}"), format!("`break add {tok}` must add x{addr:04x}, breakpoints are {user_breaks:04x?}")));
@@ -413,6 +419,83 @@ fn judge_special(src: &str, tok: &str, want: Option<u16>) -> Option<(String, Str
             None
         }
     }
+}
+
+/// Sources whose statements are long in bytes: `gap` blanks between a mnemonic or directive and its
+/// operand (the blanks belong to the statement's text), and a string literal of `gap` 2-byte
+/// characters. Returns the source and, per query token, the text `assembly` must print.
+fn long_statement_case(gap: usize) -> (String, Vec<(String, String)>) {
+    let blanks = " ".repeat(gap);
+    let fill = format!(".fill{blanks} x2a");
+    let strz = format!(".stringz{blanks} \"hi\"");
+    let add = format!("add r1,{blanks} r1, #2");
+    // at most 20000 characters: the program must stay inside user space
+    let big = format!(".stringz \"{}\"", "é".repeat(gap.min(20000)));
+    let src = format!("first add r0, r0, #1\nnum {fill}\ntxt {strz}\nlast {add} ; comment\nhalt\nbig {big}\nend halt\n");
+    let q = vec![
+        ("first".to_string(), "add r0, r0, #1".to_string()),
+        ("num".to_string(), fill),
+        ("txt".to_string(), strz.clone()),
+        ("txt+2".to_string(), strz),
+        ("last".to_string(), add),
+        ("last+1".to_string(), "halt".to_string()),
+        ("big".to_string(), big.clone()),
+        ("end-1".to_string(), big),
+        ("end".to_string(), "halt".to_string()),
+        ("end+1".to_string(), String::new()),
+    ];
+    (src, q)
+}
+
+fn long_gaps(thorough: bool) -> Vec<usize> {
+    let mut v = vec![1, 240, 246, 247, 248, 249, 250, 255, 256, 257, 32760, 65520, 65526, 65527, 65528, 65529, 65530, 65535, 65536, 65537, 70000];
+    if thorough {
+        v.extend([127, 128, 4095, 4096, 16384, 32767, 32768, 131072, 1 << 20]);
+    }
+    v
+}
+
+fn judge_long(gap: usize) -> Option<(String, String)> {
+    let (src, queries) = long_statement_case(gap);
+    let mut script = String::new();
+    for (i, (tok, _)) in queries.iter().enumerate() {
+        script.push_str(&format!("echo Q{i};assembly {tok};"));
+    }
+    script.push_str(&format!("echo Q{};exit", queries.len()));
+    let res = match session(&src, Env::new(false), Some(&script), 1_000_000) {
+        Ok(r) => r,
+        Err(stopped) => return Some((format!("panic/{}", stopped.panic_site()), format!("session on a source with {gap}-byte gaps stopped with {}", stopped.short()))),
+    };
+    let obs = match res {
+        SessionResult::Ran(o) => o,
+        SessionResult::AsmFailed(e) => return Some(("assembler-rejected".into(), e.message)),
+        SessionResult::LoadFailed(e) => return Some(("load-failed".into(), e)),
+    };
+    if let crate::session::Ended::Panic(p) = &obs.ended {
+        return Some((format!("panic/{}", p.trim_start_matches("panic at ").split(':').take(2).collect::<Vec<_>>().join(":")), format!("session on a source with {gap}-byte gaps panicked: {p}")));
+    }
+    let mut rest = obs.dbg.as_str();
+    let mut parts: Vec<&str> = Vec::new();
+    for q in 0..=queries.len() {
+        let marker = format!("[Q{q}]\n");
+        let Some(pos) = rest.find(&marker) else { return Some(("marker-missing".into(), format!("marker Q{q} missing in debugger output (ended: {:?})", obs.ended))) };
+        if q > 0 {
+            parts.push(&rest[..pos]);
+        }
+        rest = &rest[pos + marker.len()..];
+    }
+    let brief = |t: &str| -> String {
+        let n = t.chars().count();
+        if n > 80 { format!("{:?}... ({} bytes, {} blanks)", t.chars().take(40).collect::<String>(), t.len(), t.matches(' ').count()) } else { format!("{t:?}") }
+    };
+    for (i, (tok, want)) in queries.iter().enumerate() {
+        let want = format!("{want}\n");
+        if parts[i] != want {
+            let class = if want.len() > 65536 { "statement-of-64KiB-or-more" } else if want.len() > 256 { "statement-over-256-bytes" } else { "short-statement" };
+            return Some((format!("assembly/{class}"), format!("`assembly {tok}` printed {}, the statement's source text is {}", brief(parts[i]), brief(&want))));
+        }
+    }
+    None
 }
 
 pub fn run(ctx: &Ctx) -> i32 {
@@ -468,19 +551,44 @@ pub fn run(ctx: &Ctx) -> i32 {
     for p in parts {
         acc.merge(p);
     }
+    let gaps = long_gaps(ctx.tier == crate::report::Tier::Thorough);
+    let parts = crate::isolate::pooled(None, gaps.len(), 1, Acc::new, |acc, i| {
+        acc.eval("long-statements");
+        let mut v = judge_long(gaps[i]);
+        if v.is_some() {
+            v = confirm_fresh(|| judge_long(gaps[i]));
+        }
+        match v {
+            None => {
+                acc.nontrivial();
+                acc.gate("long-statements-agreed");
+                acc.outcome("long-statements/ok".to_string());
+            }
+            Some((sig, what)) => {
+                acc.outcome(format!("violation:long-statements/{sig}"));
+                acc.violation(format!("C17/long-statements/{sig}"), what, json!({"long_gap": gaps[i]}));
+            }
+        }
+    });
+    for p in parts {
+        acc.merge(p);
+    }
     finish(
         ctx,
         acc,
         Level { category: "model_checking", bfs: None },
-        "bounded-exhaustive enumeration: every ordered pair of 17 statement shapes (operand-less, operand-ful, every directive, multi-word, multi-byte strings, stack extension) in 3 arrangements (first statement at byte 0 / labelled with .break between / .orig in the middle), 5 origins (default, x0200, x7FFE crossing x8000, xFD00, x0000), a layout product (case, separators incl. commas, label colon, label on own line, trailing and full-line comments with multi-byte characters, indentation, .end); one debugger session per program queries `assembly` at EVERY address from origin-1 to origin+n+1 and `goto label`, `label+1`, `label-1`, `label+3` for every label; compared with the printer's statement spans and the reference symbol table; a second session in full (non-minimal) output adds a breakpoint at every statement address and one past the program and reads the source column of the `break list` table (same oracle); plus 27 single-query sessions on labels whose spelling the command language can also read as an integer or register (b1, o7, B0, x, o, b, b2, xg, r8, _1, 2nd, 9, each bare and with +1) and on a label after the 65535th word. non-trivial = sessions in which every query agreed",
+        "bounded-exhaustive enumeration: every ordered pair of 17 statement shapes (operand-less, operand-ful, every directive, multi-word, multi-byte strings, stack extension) in 3 arrangements (first statement at byte 0 / labelled with .break between / .orig in the middle), 5 origins (default, x0200, x7FFE crossing x8000, xFD00, x0000), a layout product (case, separators incl. commas, label colon, label on own line, trailing and full-line comments with multi-byte characters, indentation, .end); one debugger session per program queries `assembly` at EVERY address from origin-1 to origin+n+1 and `goto label`, `label+1`, `label-1`, `label+3` for every label; compared with the printer's statement spans and the reference symbol table; a second session in full (non-minimal) output adds a breakpoint at every statement address and one past the program and reads the source column of the `break list` table (same oracle); plus 35 single-query sessions on labels whose spelling the command language can also read as an integer or register (b1, o7, B0, x, o, b, b2, xg, r8, _1, 2nd, 9, r7save, r0_, R3x, pcx, each bare and with +1: goto, print and break add) and on a label after the 65535th word; plus sessions on a source whose statements are long in bytes (g blanks between directive/mnemonic and operand, a string of min(g, 20000) 2-byte characters; g over 21 values around 2^8 and 2^16 and beyond, thorough adds 9 more up to 2^20), querying `assembly` at 10 label-relative locations. non-trivial = sessions in which every query agreed",
         true,
-        &["session-agreed"],
+        &["session-agreed", "long-statements-agreed"],
         &["the printer records the exact byte span of each statement it emits", "minimal-mode debugger text is read through the tee hook"],
         json!({}),
     )
 }
 
 pub fn replay(_ctx: &Ctx, case: &Value) -> Option<Option<String>> {
+    if let Some(g) = case["long_gap"].as_u64() {
+        return Some(confirm_fresh(|| judge_long(g as usize)).map(|(s, w)| format!("{s}: {w}")));
+    }
     if case["special"].as_bool() == Some(true) {
         let (src, tok) = (case["source"].as_str()?.to_string(), case["token"].as_str()?.to_string());
         let want = case["want"].as_u64().map(|w| w as u16);
